@@ -1461,3 +1461,66 @@ def r6_7(rep):
             rep.check(ok, "used-set-insert:%s#%d" % (fn, n), "inserts %s" % how if ok else
                       "inserts %s: something that is not a template parameter enters a set whose non-emptiness means \"not concrete\"" % how, b.loc(c))
     rep.need(n >= 4, "insertions into used-template-parameter sets (constrain_* and constrain)")
+
+
+# ---------------------------------------------------------------------------------------------------------
+# R6.8 / R6.9  the numbers that end up in the assertions are libclang's, for that very type
+# ---------------------------------------------------------------------------------------------------------
+@RULES.rule("R6.8", "the layout stored with a type is libclang's answer for it, never withdrawn or replaced", floor=1)
+def r6_8(rep):
+    """Size and alignment assertions are emitted for every type that carries a layout (R6.2) and use exactly that layout (R6.3).
+    `Type::from_clang_ty` obtains it once, from `ty.fallible_layout(ctx)`, and passes it to `Type::new`.  Clearing it for some kinds of
+    type ("we do not know the layout of an explicit specialization") silently removes the assertion of an instantiation that is still
+    named in the bindings (seeded change); replacing it would assert something else than clang computed."""
+    prog = rep.prog
+    b = rep.need(prog.fn("ir::ty::Type::from_clang_ty"), "Type::from_clang_ty")
+    news = [c for c in b.calls(lambda x: x["k"] == "Call" and (x.get("callee") or "") == "ir::ty::Type::new" and len(x["args"]) == 4)]
+    rep.need(news, "Type::new(name, layout, kind, is_const)")
+    for k, c in enumerate(news):
+        a = strip(c["args"][1])
+        ok = False
+        why = b.canon(a, 4)[:80]
+        if a.get("k") == "Local":
+            init = b.local_init(a["id"])
+            assigned = a["id"] in b.local_assigned
+            from_clang = init is not None and "clang::Type::fallible_layout" in b.canon(init, 6)
+            ok = from_clang and not assigned
+            why = "`%s`%s" % (b.canon(init, 4)[:70] if init is not None else "?", ", later reassigned" if assigned else "")
+        rep.check(ok, "layout-from-clang%s" % ("" if k == 0 else "#%d" % k), "the layout is " + why if ok else
+                  "the layout handed to Type::new is %s: the type keeps being named in the bindings but its size/alignment assertion "
+                  "disappears or checks other numbers" % why, b.loc(c))
+
+
+@RULES.rule("R6.9", "`fallible_layout` asks libclang about the type at hand, every time", floor=3)
+def r6_9(rep):
+    """`clang::Type::fallible_layout` is `Layout::new(self.fallible_size(ctx)?, self.fallible_align(ctx)?)`.  Remembering the answer
+    under a key needs a key that identifies the type; unnamed records share their USR, and records produced by one macro expansion also
+    share their location, so a cache keyed that way hands the first record's size to the second (seeded change: `struct { long w[2]; }`
+    asserted as size 3).  The two numbers must come from `self`, and the computation must not be handed to another function of the
+    crate as a closure."""
+    prog = rep.prog
+    b = rep.need(prog.fn("clang::Type::fallible_layout"), "clang::Type::fallible_layout")
+    mk = [c for c in b.calls(lambda x: x["k"] == "Call" and (x.get("callee") or "").endswith("layout::Layout::new"))]
+    rep.need(mk, "Layout::new in fallible_layout")
+    for c in mk:
+        s0, s1 = b.canon(c["args"][0], 8), b.canon(c["args"][1], 8)
+        ok = "clang::Type::fallible_size(param:self" in s0 and "clang::Type::fallible_align(param:self" in s1
+        rep.check(ok, "numbers-of-self", "Layout::new(self.fallible_size(..)?, self.fallible_align(..)?)" if ok else
+                  "size / alignment come from `%s` / `%s`" % (s0[:60], s1[:60]), b.loc(c))
+        clo = [a for a in b.ancestors(c) if a["k"] == "Closure"]
+        bad = None
+        for cl in clo:
+            p = b.parent[cl["_i"]]
+            while p is not None and p["k"] not in ("Call", "MCall"):
+                p = b.parent[p["_i"]]
+            cal = (p.get("resolved") or p.get("callee") or "") if p is not None else ""
+            if not cal.startswith(("std::", "core::", "alloc::")):
+                bad = cal or "?"
+        rep.check(bad is None, "asked-every-time", "computed in place" if bad is None else
+                  "the query is a closure given to `%s`, which decides whether libclang is asked at all: two types that share its key share "
+                  "one layout" % bad, b.loc(c))
+    tail = strip(b.root.get("tail") or {})
+    direct = tail.get("k") == "Call" and (tail.get("callee") or tail.get("ctor_of") or "").endswith("Ok") and \
+        any(x is mk[0] for x in b.walk(tail))
+    rep.check(direct, "result-is-the-query", "the result is `Ok(Layout::new(..))`" if direct else
+              "the function's result is `%s`, not the layout it just computed" % b.canon(tail, 3)[:80], b.loc(b.root))
